@@ -350,7 +350,7 @@ func worldTunnel(w *World) {
 		nf := w.KnobPick("nfaults", 0, 1, 2, 4)
 		for i := 0; i < nf; i++ {
 			at := time.Duration(fr.Range(0, 6000)) * time.Millisecond
-			kind := fr.Intn(3)
+			kind := fr.Intn(4)
 			dur := time.Duration(fr.Range(200, 15000)) * time.Millisecond
 			pick := fr.Intn(1 << 20)
 			w.Net.At(at, fmt.Sprintf("tunnel-fault-%d", i), func() {
@@ -359,6 +359,9 @@ func worldTunnel(w *World) {
 				switch {
 				case kind == 0 && len(ids) > 0:
 					w.Net.ResetPair(ids[pick%len(ids)])
+				case kind == 3 && len(ids) > 0:
+					// half-open: one end loses the connection, the other is not told
+					w.Net.HalfOpenPair(ids[pick%len(ids)], pick>>8&1)
 				case kind == 1 && len(ids) > 0:
 					id := ids[pick%len(ids)]
 					w.Net.BlackholePair(id, true)
